@@ -7,6 +7,7 @@ import (
 	"os"
 	"path/filepath"
 	"reflect"
+	"regexp"
 	"sort"
 	"strconv"
 	"strings"
@@ -58,6 +59,7 @@ type Stats struct {
 	SampleTrace   []string `json:"sample_trace,omitempty"`
 	sampleDevs    int
 	ViolationList []Found `json:"violations,omitempty"`
+	KnownList     []Found `json:"known,omitempty"`
 }
 
 // Found is a violation with the schedule that produced it.
@@ -94,6 +96,10 @@ type Explorer struct {
 	Inflight string
 	// Terminal collects (outcome, violated properties) pairs for the pruning self-check.
 	Terminal map[string]bool
+	// Known matches violations listed as known findings: each is reported once
+	// (the driver prints KNOWN-FINDING) and does not count towards MaxViolations.
+	Known      func(scenario, msg string) bool
+	knownShown map[string]bool
 }
 
 func (e *Explorer) Explore() {
@@ -186,9 +192,15 @@ func (e *Explorer) explore(prefix []int, depth int) {
 	sort.Strings(vp)
 	e.Terminal[x.Outcome+"|"+strings.Join(vp, ",")] = true
 
-	if e.DetEvery > 0 && (e.Stats.Executions%e.DetEvery == 1 || len(x.Violations) > 0) {
+	unknown := 0
+	for _, v := range x.Violations {
+		if e.Known == nil || !e.Known(e.Scenario, v.Msg) {
+			unknown++
+		}
+	}
+	if e.DetEvery > 0 && (e.Stats.Executions%e.DetEvery == 1 || unknown > 0) {
 		reruns := 1
-		if len(x.Violations) > 0 {
+		if unknown > 0 {
 			reruns = 4
 		}
 		picks := picksOf(x)
@@ -204,6 +216,16 @@ func (e *Explorer) explore(prefix []int, depth int) {
 		}
 	}
 	for _, v := range x.Violations {
+		if e.Known != nil && e.Known(e.Scenario, v.Msg) {
+			if e.knownShown == nil {
+				e.knownShown = map[string]bool{}
+			}
+			if !e.knownShown[v.Msg] {
+				e.knownShown[v.Msg] = true
+				e.Stats.KnownList = append(e.Stats.KnownList, Found{Violation: v, Scenario: e.Scenario, Picks: picksOf(x), Trace: x.Trace})
+			}
+			continue
+		}
 		e.Stats.ViolationList = append(e.Stats.ViolationList, Found{Violation: v, Scenario: e.Scenario, Picks: picksOf(x), Trace: x.Trace})
 	}
 	if len(e.Stats.ViolationList) >= e.MaxViolations {
@@ -361,4 +383,41 @@ func LoadReplay(path string) (*ReplayFile, error) {
 		return nil, err
 	}
 	return &r, nil
+}
+
+// KnownFindings loads $VERIF_DIR/known_findings.json and returns a matcher for
+// the findings of status "known" of one property (nil if there are none). The
+// match regex is applied to "scenario\nmsg".
+func KnownFindings(property string) func(scenario, msg string) bool {
+	b, err := os.ReadFile(filepath.Join(os.Getenv("VERIF_DIR"), "known_findings.json"))
+	if err != nil {
+		return nil
+	}
+	var f struct {
+		Findings []struct {
+			Property, Status, Match string
+		} `json:"findings"`
+	}
+	if json.Unmarshal(b, &f) != nil {
+		return nil
+	}
+	var res []*regexp.Regexp
+	for _, k := range f.Findings {
+		if k.Property == property && k.Status == "known" && k.Match != "" {
+			if re, err := regexp.Compile(k.Match); err == nil {
+				res = append(res, re)
+			}
+		}
+	}
+	if len(res) == 0 {
+		return nil
+	}
+	return func(scenario, msg string) bool {
+		for _, re := range res {
+			if re.MatchString(scenario + "\n" + msg) {
+				return true
+			}
+		}
+		return false
+	}
 }
